@@ -28,7 +28,7 @@ def run(c, owner):
             continue
         kind, i = mism[0][1], mism[0][2]
         ev = events[i - 1] if 0 < i <= len(events) else None
-        mine = (kind == "SYS/scan") if owner == "C01" else (kind in ("SYS/deliver", "SYS/return", "SYS/stop", "SYS/drop"))
+        mine = (kind == "SYS/scan") if owner == "C01" else (kind in ("SYS/deliver", "SYS/return", "SYS/stop", "SYS/drop", "SYS/panic", "SYS/runaway"))
         if mine and owner == "C18":
             # System.tla follows Poll.tla's request structure, which C18 does not fix.  The session is judged on the
             # statement alone: delivery schedule by the property reading of Trace_Poll, payloads by Trace_Content.
